@@ -13,7 +13,7 @@ MIN_CASES = {"quick": 1500, "thorough": 15000}
 RULE = ("Hypothesis draws a square operator tree (Dense, Identity, Diagonal, ScalarMul, Sum, BlockDiag with multiplicities, "
         "Kronecker/KronSum with >=2 factors, products, generic matmat/no_dispatch operators, nested), an offset -n<k<n, a size "
         "(1..12 for nested trees; {99,100,101,130,199,200,201,250,320,400} for shallow large ones, i.e. both sides of and not "
-        "divisible by the probing block 100) and alg in {omitted, Auto(), Exact(), Exact(bs)}; oracle = numpy.diag of the "
+        "divisible by the probing block 100) and alg in {omitted, Auto(), Exact(), Exact(bs), Exact(pbar=True)}; oracle = numpy.diag of the "
         "reference matrix (exact equality for integer payloads, which also pins the length) and trace = sum. If the generic "
         "probing rule is selected any exception or mismatch is a violation; a structural rule must return the reference "
         "values or refuse from inside diag_trace.py. Non-trivial: k != 0, or n > 100, or a composite operator.")
@@ -87,7 +87,7 @@ def cases(draw, tier):
         else:
             tree = getattr(g, "k_" + root)(n, n, depth - 1)
     k = g.pick([0, 0, None]) if g.boolean() else g.integer(-(n - 1), n - 1)
-    alg = g.pick(["omitted", "Auto", "Exact", "Exact(bs)"])
+    alg = g.pick(["omitted", "Auto", "Exact", "Exact(bs)", "Exact(pbar)"])
     return {"tree": tree, "k": k, "alg": alg, "bs": g.pick([1, 7, 50, 100, 1000])}
 
 
@@ -105,6 +105,8 @@ def make_alg(case):
         return L.Auto()
     if a == "Exact":
         return L.Exact()
+    if a == "Exact(pbar)":
+        return L.Exact(pbar=True)
     return L.Exact(bs=case["bs"])
 
 
@@ -148,7 +150,8 @@ def check(case, out):
     if n > 100:
         site += ":n>100"
     try:
-        d = call_diag()
+        with oracle.quiet():
+            d = call_diag()
     except Exception as e:
         tn, where = oracle.exc_bucket(e)
         if structural and where.startswith("diag_trace.py") and tn in ("AssertionError", "NotImplementedError"):
@@ -168,7 +171,8 @@ def check(case, out):
                 out.fail("diag", site, res[0], res[1])
     if kk == 0:
         try:
-            t = L.trace(A) if alg is None else L.trace(A, alg)
+            with oracle.quiet():
+                t = L.trace(A) if alg is None else L.trace(A, alg)
         except Exception as e:
             tn, where = oracle.exc_bucket(e)
             if structural and where.startswith("diag_trace.py") and tn in ("AssertionError", "NotImplementedError"):
